@@ -65,7 +65,8 @@ class HistogramCollection(Container[Histogram1D], ObjectWithBinning):
     def _align(self) -> None:
         """Bring members over an adaptive binning (they grow separately) to common bins."""
         if self.histograms and self.binning.is_adaptive():
-            template = self.sum().copy(include_frequencies=False)
+            # (Only the common bins are needed: the contents of narrow types might not even add up)
+            template = sum(h.copy(include_frequencies=False) for h in self.histograms)
             for histogram in self.histograms:
                 if not histogram.binning == template.binning:
                     histogram += template  # Adds nothing but the missing (empty) bins
